@@ -463,6 +463,96 @@ ATTACKS = {
     "collectgarbage": 'return tostring(collectgarbage) .. tostring(newproxy) .. tostring(module)',
 }
 
+# A dump controls page TITLES too: a module page named like a file of the
+# sandbox implementation or of the built-in libraries.  If the loader hands it
+# out in place of the file, it runs inside the privileged set-up.  The payload
+# watches every table that passes through the global helpers while it is
+# loaded / used, looks for Python callables in it and uses what it finds.
+SHADOW_PAYLOAD = r"""
+local stash = { seen = 0 }
+local raw_next, raw_type, raw_pcall, raw_tostring = _orig_next or next, type, pcall, tostring
+local busy = false
+local function try(t)
+  if busy then return end
+  busy = true
+  raw_pcall(function()
+    for k, v in raw_next, t do
+      local ok, a = raw_pcall(function() return v.args end)
+      if ok and a ~= nil then
+        local c = a[0]
+        stash.ctx = raw_tostring(c)
+        raw_pcall(function() c.add_page("Evil", 0, "x") end)
+        raw_pcall(function()
+          c.db_path.parent.joinpath("pwned-shadow.txt").write_text("x")
+        end)
+      end
+    end
+  end)
+  busy = false
+end
+local function wrap(orig)
+  if raw_type(orig) ~= "function" then return orig end
+  return function(...)
+    local a = ...
+    if raw_type(a) == "table" then stash.seen = stash.seen + 1; try(a) end
+    return orig(...)
+  end
+end
+-- plain global assignments: works whatever _G is bound to in this chunk
+pairs = wrap(pairs); ipairs = wrap(ipairs); next = wrap(next)
+getmetatable = wrap(getmetatable); type = wrap(type); select = wrap(select)
+rawget = wrap(rawget); rawset = wrap(rawset); tostring = wrap(tostring)
+unpack = wrap(unpack); setmetatable = wrap(setmetatable)
+__shadow = stash
+-- enough of a library for the set-up to go on (mw.ustring.upper / lower);
+-- anything else is a function, so that deeper use fails at once
+local dummy = function(...)
+  for i = 1, select("#", ...) do
+    local a = select(i, ...)
+    if raw_type(a) == "table" then try(a) end
+  end
+  return nil
+end
+local stub = setmetatable({ shadow = stash,
+    ustring = { upper = string.upper, lower = string.lower } },
+  { __index = function(t, k) return dummy end })
+return stub
+"""
+
+SHADOW_MAIN = ('local s = __shadow or (type(mw) == "table" and mw.shadow) or {}; '
+               'return "SHADOW:" .. tostring(s.ctx)')
+
+
+def builtin_module_names():
+    """Names under which the loader finds a file of the package (or of the
+    stand-in library directory): sandbox phases, mw*, Scribunto lualib."""
+    from wikitextprocessor import luaexec as lx
+
+    names = set()
+    for prefix, _exc in lx.BUILTIN_LUA_SEARCH_PATHS:
+        base = (lx.LUA_DIR / prefix)
+        try:
+            files = [f for f in base.rglob("*.lua")]
+        except OSError:
+            continue
+        for f in files:
+            rel = f.relative_to(base)
+            if len(rel.parts) > 2 or "mediawiki-extensions" in str(rel):
+                continue
+            names.add(":".join(rel.with_suffix("").parts))
+    return sorted(names)
+
+
+def shadow_attacks():
+    out = []
+    for n in builtin_module_names():
+        titles = {"Module:" + n, "Module:" + n.replace("_", " "),
+                  "Module:" + n.replace(":", "/")}
+        for t in sorted(titles):
+            out.append(("shadow:" + t, SHADOW_MAIN, [[t, SHADOW_PAYLOAD]]))
+    return out
+
+
 # generated path programs: small expressions over the edge alphabet
 ROOTS = ["_G", "frame", "mw", "string", "table", "math", "os", "package",
          "debug", 'getmetatable("")', "frame:getParent()",
@@ -509,8 +599,9 @@ def ctx_snapshot(ctx):
         "parser_function_aliases", "quiet_output")}
 
 
-def attack_child(body):
-    """Runs one attack program for real in a scratch directory."""
+def attack_child(body, extra_pages=()):
+    """Runs one attack program for real in a scratch directory.  extra_pages:
+    further (title, Lua source) module pages of the hostile dump."""
     env.setup()
     d = tempfile.mkdtemp(prefix="verif-c06-")
     old = os.getcwd()
@@ -533,10 +624,21 @@ def attack_child(body):
                      "local p = {}\nfunction p.main(frame)\n" + body
                      + "\nend\nreturn p\n", model="Scribunto")
         ctx.add_page("Template:wrap", 10, "{{#invoke:attack|main|{{{1|}}}}}")
+        for title, src in extra_pages:
+            ctx.add_page(title, 828, src.replace("@@DIR@@", d),
+                         model="Scribunto")
         ctx.db_conn.commit()
         # first use of Lua adds the documented empty bootstrap page
         ctx.start_page("Warm")
-        ctx.expand("{{#invoke:echo|f|w}}")
+        if extra_pages:
+            # the hostile page may act during the very first set-up: no warm-
+            # up invocation, only the documented bootstrap page
+            from wikitextprocessor import luaexec as _lx2
+
+            if hasattr(_lx2, "add_empty_sandbox_lua_module"):
+                _lx2.add_empty_sandbox_lua_module(ctx)
+        else:
+            ctx.expand("{{#invoke:echo|f|w}}")
         before_db = snapshot_db(ctx)
         before_ctx = ctx_snapshot(ctx)
         before_files = sorted(os.listdir(d))
@@ -635,8 +737,9 @@ PROBE_RETURNS = {
 
 
 def run_attack(args):
-    name, body = args
-    status, obs, el = par.fork_child(attack_child, (body,), timeout=40)
+    name, body = args[0], args[1]
+    extra = args[2] if len(args) > 2 else ()
+    status, obs, el = par.fork_child(attack_child, (body, extra), timeout=40)
     viols = judge_attack(name, body, status, obs)
     if status == "ok" and name in PROBE_RETURNS and obs["returned_value"]:
         if PROBE_RETURNS[name] in obs["out"] and "builtin" not in obs["out"]:
@@ -719,7 +822,13 @@ def run(run):
         steps = [rnd.choice(STEPS) for _ in range(rnd.randint(1, 5))]
         progs.append(("path:%s%s" % (root, "".join(steps)),
                       path_program(root, steps)))
-    res = par.map_shards(run_attack, [((n, b),) for n, b in progs], procs)
+    extras = {}
+    for n, b, extra in shadow_attacks():
+        progs.append((n, b))
+        extras[n] = extra
+    run.extra["shadowed_builtin_titles"] = len(extras)
+    res = par.map_shards(run_attack, [((n, b, extras.get(n, ())),)
+                                      for n, b in progs], procs)
     for name, body, viols, nontriv, obs in res:
         gen = name.startswith("path:")
         steps_n = name.count(".") + name.count("(") + name.count("[")
@@ -727,11 +836,18 @@ def run(run):
                  classes=["attack:generated" if gen else "attack:corpus"]
                  + (["attack:returned-a-value"] if nontriv else []),
                  sample={"attack": name, "out": (obs or {}).get("out")})
+        shadow = name.startswith("shadow:")
+        if shadow:
+            run.classes["attack:shadowed-builtin"] += 1
         for sig, what in viols:
             if gen:
                 sig = dict(sig, attack="generated-path")
+            if shadow:
+                sig = dict(sig, attack="shadowed-builtin",
+                           module=name.split(":", 2)[2])
             run.violation(sig, what, {"kind": "attack", "name": name,
-                                      "body": body})
+                                      "body": body,
+                                      "extra": extras.get(name, [])})
     run.exhaustive = True
     run.rule = (
         "(a) breadth-first walk, from inside a live invocation (page-level "
@@ -756,7 +872,11 @@ def run(run):
         "reached Python object is a callable helper or an immutable value. "
         f"(b) {len(ATTACKS)} classic escapes and generated path programs "
         "(root x 1-5 steps over field / index / call edges) executed for real "
-        "in a scratch directory with canary file and environment variable: "
+        "in a scratch directory with canary file and environment variable, "
+        "plus, for every built-in Lua file of the package, a hostile module "
+        "page stored under that file's module name (three title spellings) "
+        "whose payload watches the tables passing through the global helpers "
+        "while the sandbox is set up and uses any Python callable it finds: "
         "no new or changed file, pages table byte-identical, context "
         "attributes unchanged, canary not returned, no host object obtained. "
         "Non-trivial: reached objects at distance >= 2; programs with >= 3 "
@@ -781,8 +901,8 @@ def run(run):
 def replay(run, case):
     env.setup()
     if case.get("kind") == "attack":
-        name, body, viols, nontriv, obs = run_attack((case["name"],
-                                                      case["body"]))
+        name, body, viols, nontriv, obs = run_attack((
+            case["name"], case["body"], case.get("extra", [])))
         run.case(h(name), True, sample={"attack": name})
         for sig, what in viols:
             run.violation(sig, what, case)
